@@ -36,6 +36,12 @@ type c08Case struct {
 	N     int             `json:"n,omitempty"`
 	// Choices is the map-iteration schedule of the worst weighted build (scaled families)
 	Choices []int `json:"choices,omitempty"`
+	// nested pumping: Pre + Open^n + Inner + Close^n + "\n"
+	Nest *nestCase `json:"nest,omitempty"`
+}
+
+type nestCase struct {
+	Pre, Open, Inner, Close string
 }
 
 type c08Out struct {
@@ -498,6 +504,88 @@ func c08Pump(ctx *core.Ctx) {
 		}
 	}
 	c08Scaled(ctx)
+	c08Nested(ctx)
+}
+
+// ---- nested pumping: open^n inner close^n ------------------------------------------------
+
+var nestPairs = [][2]string{
+	{"(", ")"}, {"( ", " )"}, {"(b or ", ")"}, {"(b and ", ")"}, {"(b but not ", ")"}, {"(b from p or ", ")"},
+	{"(", ") or b"}, {"(", ") and b"}, {"(", ") but not b"}, {"((", "))"}, {"(b or (", "))"}, {"(", " or b)"},
+}
+var nestInners = []string{"b", "[user]", "b from p", "b or c", "[user] or b", ""}
+var nestPres = []string{"define a: ", "define a: [user] or ", "define a: c and ", "define a: c but not "}
+
+const nestDoc = "model\n  schema 1.1\ntype user\ntype doc\n  relations\n    define b: [user]\n    define c: [user]\n    define p: [doc]\n    "
+
+func nestText(nc *nestCase, n int) string {
+	return nestDoc + nc.Pre + strings.Repeat(nc.Open, n) + nc.Inner + strings.Repeat(nc.Close, n) + "\n"
+}
+
+// c08NestOne measures one nesting shape at depth n and 2n (cold) and judges the growth of the work.
+func c08NestOne(ctx *core.Ctx, nc *nestCase, n1 int) {
+	base, _ := measure(nestText(nc, 1))
+	s1, o1 := measure(nestText(nc, n1))
+	s2, o2 := measure(nestText(nc, 2*n1))
+	cs := c08Case{Entry: "TransformDSLToProto", Nest: nc, N: n1}
+	for _, o := range []c08Out{o1, o2} {
+		ctx.Trans(1)
+		if o.panic != nil || o.hang {
+			kind := "panic"
+			if o.hang {
+				kind = "step-horizon-exceeded"
+			}
+			ctx.Violation(kind, fmt.Sprintf("nesting %q %q^n %q %q^n at depth %d / %d: panic=%v, step horizon exceeded=%v", nc.Pre, nc.Open, nc.Inner, nc.Close, n1, 2*n1, o.panic, o.hang), cs, "", "")
+			return
+		}
+	}
+	if o1.err == nil && o2.err == nil {
+		ctx.Flag("c08:nested-accepted")
+	}
+	s1 -= base
+	s2 -= base
+	if s1 < 20000 {
+		return
+	}
+	exp := math.Log2(float64(s2) / float64(s1))
+	ctx.Flag("c08:nested-pumped")
+	ctx.State(fmt.Sprintf("nest-exp~%.0f", math.Round(exp*2)/2))
+	if os.Getenv("VERIF_DEBUG_SCALED") != "" {
+		fmt.Fprintf(os.Stderr, "NEST %q %q %q %q n=%d s1=%d s2=%d exp=%.2f accepted=%v\n", nc.Pre, nc.Open, nc.Inner, nc.Close, n1, s1, s2, exp, o2.err == nil)
+	}
+	if exp > 2.5 {
+		ctx.Violation("super-quadratic", fmt.Sprintf("nesting %q %q^n %q %q^n: %d steps at depth %d, %d at depth %d (growth exponent %.2f > 2.5)", nc.Pre, nc.Open, nc.Inner, nc.Close, s1, n1, s2, 2*n1, exp), cs, "growth exponent <= 2.5", fmt.Sprintf("%.2f", exp))
+		return
+	}
+	if ctx.WantSample() && exp > 1.2 {
+		ctx.Sample(map[string]any{"kind": "nested-pumping", "pre": nc.Pre, "open": nc.Open, "inner": nc.Inner, "close": nc.Close, "n": n1, "growth_exponent": math.Round(exp*100) / 100})
+	}
+}
+
+func c08Nested(ctx *core.Ctx) {
+	// nesting is parsed in quadratic work with a large constant ("((" x 32 costs 1.5e7 steps): the depths stay where a quadratic
+	// cost stays below the step horizon
+	n1 := 16
+	if ctx.Thorough() {
+		n1 = 20
+	}
+	k := 0
+	for _, pre := range nestPres {
+		for _, pr := range nestPairs {
+			for _, in := range nestInners {
+				k++
+				if !ctx.Mine(k) {
+					continue
+				}
+				if ctx.Expired() {
+					ctx.Cap("wall-clock cap in nested pumping")
+					return
+				}
+				ctx.Eval(1)
+				c08NestOne(ctx, &nestCase{Pre: pre, Open: pr[0], Inner: in, Close: pr[1]}, n1)
+			}
+		}
+	}
 }
 
 // ---- scaled model families ---------------------------------------------------------------
@@ -507,7 +595,11 @@ func c08Pump(ctx *core.Ctx) {
 // direct assignment with usersets of the next level, tuple-to-userset, the sibling), the last level being [user] - or, in the
 // wrapped variant, [user, doc#x0], which closes one tuple cycle over the whole chain. Every pair of menu entries is a family.
 func scaledFamilies() []string {
-	out := []string{"chain", "fan-in", "restrictions", "ttu-cycle"}
+	out := []string{"chain", "fan-in", "restrictions", "ttu-cycle",
+		// one relation whose rewrite is an operator tree of depth n
+		"deep:union:right", "deep:union:left", "deep:inter:right", "deep:inter:left", "deep:diff:base", "deep:diff:subtract", "deep:alternating",
+		// n types, each with a TTU through every other type
+		"types-ttu"}
 	for x := range cellMenu {
 		for y := range cellMenu {
 			if cellMenu[y].sibling {
@@ -612,10 +704,31 @@ func c08StartOrders(ctx *core.Ctx, pm *openfgav1.AuthorizationModel) (worst c08O
 // weighted builder from every start node.
 func c08ScaledOne(ctx *core.Ctx, fam string) {
 	var prev, prevW int64
+	var prevSize float64
 	sizes := []int{8, 16, 32, 64}
+	if dbg := os.Getenv("VERIF_DEBUG_SIZES"); dbg != "" {
+		sizes = nil
+		for _, f := range strings.Fields(dbg) {
+			var v int
+			fmt.Sscan(f, &v)
+			sizes = append(sizes, v)
+		}
+	}
 	for _, n := range sizes {
 		m := scaledModel(fam, n)
 		pm := ref.ToProto(m)
+		// growth is judged against the length of the input (wire size of the model), not against the family parameter:
+		// a family may grow faster than linearly in n
+		size := float64(proto.Size(pm))
+		growth := 1.0
+		if prevSize > 0 {
+			growth = math.Log2(size / prevSize)
+		}
+		if size > 12000 {
+			// the step horizon stands for "a few hundred bytes stall the caller"; a quadratic cost on tens of kilobytes may
+			// legitimately exceed it, so families that grow faster than linearly in n stop here
+			break
+		}
 		var stage string
 		o := c08Call(func() (bool, error) {
 			stage = "TransformJSONProtoToDSL"
@@ -646,7 +759,7 @@ func c08ScaledOne(ctx *core.Ctx, fam string) {
 			ctx.Flag("c08:scaled-accepted")
 		}
 		if prev > 2000 {
-			exp := math.Log2(float64(o.steps) / float64(prev))
+			exp := math.Log2(float64(o.steps)/float64(prev)) / growth
 			ctx.State(fmt.Sprintf("scaled-exp~%.0f", math.Round(exp*2)/2))
 			if exp > 2.5 {
 				ctx.Violation("super-quadratic", fmt.Sprintf("scaled model %s: %d steps at n=%d, %d at n=%d (exponent %.2f)", familyTag(fam), prev, n/2, o.steps, n, exp), cs, "<= 2.5", fmt.Sprintf("%.2f", exp))
@@ -656,7 +769,7 @@ func c08ScaledOne(ctx *core.Ctx, fam string) {
 				ctx.Sample(map[string]any{"kind": "scaled-model", "family": familyTag(fam), "n": n, "steps_n_half": prev, "steps_n": o.steps, "growth_exponent": math.Round(exp*100) / 100})
 			}
 		}
-		prev = o.steps
+		prev, prevSize = o.steps, size
 		// the weighted builder from every start node
 		if n > 32 && !ctx.Thorough() {
 			continue
@@ -673,13 +786,13 @@ func c08ScaledOne(ctx *core.Ctx, fam string) {
 			return
 		}
 		if os.Getenv("VERIF_DEBUG_SCALED") != "" {
-			fmt.Fprintf(os.Stderr, "SCALED %s n=%d default=%d worst-start=%d runs=%d\n", familyTag(fam), n, o.steps, w.steps, runs)
+			fmt.Fprintf(os.Stderr, "SCALED %s n=%d size=%.0f default=%d worst-start=%d runs=%d\n", familyTag(fam), n, size, o.steps, w.steps, runs)
 		}
 		if prevW > 2000 {
-			exp := math.Log2(float64(w.steps) / float64(prevW))
+			exp := math.Log2(float64(w.steps)/float64(prevW)) / growth
 			ctx.State(fmt.Sprintf("scaled-start-exp~%.0f", math.Round(exp*2)/2))
 			if exp > 2.5 {
-				if core.IsKnown(f14) && f14Family(fam) && exp <= 3.75 {
+				if core.IsKnown(f14) && f14Family(fam) && exp <= 4.0 {
 					ctx.Known(f14, fmt.Sprintf("%s, weighted builder under its worst start node (schedule %v): %d steps at n=%d, %d at n=%d (exponent %.2f)", familyTag(fam), wch, prevW, n/2, w.steps, n, exp))
 				} else {
 					ctx.Violation("super-quadratic", fmt.Sprintf("scaled model %s, weighted builder under its worst start node: %d steps at n=%d, %d at n=%d (exponent %.2f)", familyTag(fam), prevW, n/2, w.steps, n, exp), cs, "<= 2.5", fmt.Sprintf("%.2f", exp))
@@ -737,6 +850,55 @@ func scaledModel(fam string, n int) *ref.Model {
 		}
 		doc.Rels = append(doc.Rels, ref.Relation{Name: fmt.Sprintf("x%d", n), Rw: ref.T(), Restr: last}, ref.Relation{Name: fmt.Sprintf("y%d", n), Rw: ref.T(), Restr: u})
 		return &ref.Model{Schema: "1.1", Types: []ref.TypeDef{{Name: "user"}, doc}}
+	}
+	if strings.HasPrefix(fam, "deep:") {
+		leaf := func(i int) *ref.Rewrite { return ref.C(name(i % 3)) }
+		rw := leaf(0)
+		for i := 1; i <= n; i++ {
+			l := leaf(i)
+			switch fam {
+			case "deep:union:right":
+				rw = ref.U(l, rw)
+			case "deep:union:left":
+				rw = ref.U(rw, l)
+			case "deep:inter:right":
+				rw = ref.I(l, rw)
+			case "deep:inter:left":
+				rw = ref.I(rw, l)
+			case "deep:diff:base":
+				rw = ref.D(rw, l)
+			case "deep:diff:subtract":
+				rw = ref.D(l, rw)
+			default:
+				switch i % 3 {
+				case 0:
+					rw = ref.U(l, rw)
+				case 1:
+					rw = ref.I(rw, l)
+				default:
+					rw = ref.D(l, rw)
+				}
+			}
+		}
+		for i := 0; i < 3; i++ {
+			doc.Rels = append(doc.Rels, ref.Relation{Name: name(i), Rw: ref.T(), Restr: u})
+		}
+		doc.Rels = append(doc.Rels, ref.Relation{Name: "deep", Rw: rw})
+		return &ref.Model{Schema: "1.1", Types: []ref.TypeDef{{Name: "user"}, doc}}
+	}
+	if fam == "types-ttu" {
+		m := &ref.Model{Schema: "1.1", Types: []ref.TypeDef{{Name: "user"}}}
+		var parents []ref.Restriction
+		for i := 0; i < n; i++ {
+			parents = append(parents, ref.Restriction{Type: fmt.Sprintf("t%d", i)})
+		}
+		for i := 0; i < n; i++ {
+			m.Types = append(m.Types, ref.TypeDef{Name: fmt.Sprintf("t%d", i), Rels: []ref.Relation{
+				{Name: "p", Rw: ref.T(), Restr: parents},
+				{Name: "v", Rw: ref.U(ref.T(), ref.TT("v", "p")), Restr: u},
+			}})
+		}
+		return m
 	}
 	switch fam {
 	case "chain":
@@ -983,7 +1145,7 @@ func init() {
 		Rule: "(a) every string of <= 3 lexemes over a 38-lexeme DSL alphabet (length 3 over a 30-lexeme alphabet in quick) appended to 10 valid document prefixes, through TransformDSLToProto/JSON, TransformModularDSLToProto and as member of 1- and 2-file module sets; accepted texts continue through printer and both graph builders; " +
 			"every DSL text of the repository's shared test-data corpus with all its single mutations (each piece deleted, each of 30 lexemes inserted at each boundary; quick: for every 12th document); every string of <= 3/4 tokens over JSON and YAML token alphabets through TransformJSONStringToDSL / TransformModFile; every JSON value of two valid model documents replaced by 9 other JSON values. " +
 			"(b) fault enumeration on protobufs: every single and every pair (quick: pairs on the small base model) of degradations (pointer nil / empty, slice nil / drop / nil element, map nil / nil value / renamed key, string empty, oneof nil / nil payload, enum 0 / out of range) of three base models (one of them not DSL-expressible: direct assignment in subtract and non-first positions, nested unary operators) through printer (both options), plain graph (+Reversed, GetDOT, GetCycles, PathExists) and weighted builder. " +
-			"(c) pumping: every fragment of <= 2 lexemes (thorough: + every 3rd 3-lexeme fragment) repeated n and 2n times (n = 32 / 64) in 10 insertion contexts; scaled model families through printer and both graph builders at n = 8, 16, 32, 64: four fixed shapes (computed chain, fan-in union, long restriction list, TTU cycle) and every cell family (n levels of two relations whose rewrites range over a 9 x 8 menu over the next level - computed, union / intersection / exclusion of both, direct assignment with usersets of the next level, TTU, the sibling - with the last level open or wrapped back to the first as one tuple cycle: 144 families incl. all diamond-shaped DAGs); deterministic step counts from build-time instrumentation, growth exponent log2(S(2n)/S(n)) <= 2.5, horizon 5e7 steps. " +
+			"(c) pumping: every fragment of <= 2 lexemes (thorough: + every 3rd 3-lexeme fragment) repeated n and 2n times (n = 32 / 64) in 10 insertion contexts; scaled model families through printer and both graph builders at n = 8, 16, 32, 64: four fixed shapes (computed chain, fan-in union, long restriction list, TTU cycle) and every cell family (n levels of two relations whose rewrites range over a 9 x 8 menu over the next level - computed, union / intersection / exclusion of both, direct assignment with usersets of the next level, TTU, the sibling - with the last level open or wrapped back to the first as one tuple cycle: 144 families incl. all diamond-shaped DAGs); the weighted builder additionally from every start node of its depth-first weight assignment (n <= 32 quick / 64 thorough), growth judged on the worst start node; nested pumping: open^n inner close^n for 12 open/close pairs (parentheses with and without operators on either side, doubled) x 6 inner rewrites x 4 prefixes at depth 16 and 32 (thorough 20 and 40); deterministic step counts from build-time instrumentation, growth exponent log2(S(2n)/S(n)) <= 2.5, horizon 5e7 steps. " +
 			"states = outcome classes, non-trivial = distinct accepted texts and fault names",
 		Assume: []string{
 			"work is measured in instrumented steps (function entries and loop iterations of the repository, the antlr runtime, the generated parser and yaml.v3); built-ins, protobuf and regexp internals are not counted",
@@ -993,7 +1155,7 @@ func init() {
 		Technique: "bounded exhaustive enumeration of texts and of protobuf fault combinations with a panic guard and a deterministic step-count horizon",
 		Run:       c08Run,
 		Finish: func(r *core.Result) error {
-			for _, f := range []string{"c08:steps-live", "c08:some-error", "c08:some-result", "c08:unlexable-rejected", "c08:fault-enumeration", "c08:pumped", "c08:json-replacement", "c08:module-file-sets", "c08:corpus-mutations", "c08:scaled-families", "c08:scaled-accepted", "c08:scaled-rejected"} {
+			for _, f := range []string{"c08:steps-live", "c08:some-error", "c08:some-result", "c08:unlexable-rejected", "c08:fault-enumeration", "c08:pumped", "c08:json-replacement", "c08:module-file-sets", "c08:corpus-mutations", "c08:scaled-families", "c08:scaled-accepted", "c08:scaled-rejected", "c08:start-orders", "c08:nested-pumped", "c08:nested-accepted"} {
 				if !r.Flags[f] {
 					return fmt.Errorf("C08: guard %q never exercised", f)
 				}
@@ -1006,6 +1168,8 @@ func init() {
 				panic(err)
 			}
 			switch {
+			case cs.Nest != nil:
+				c08NestOne(ctx, cs.Nest, cs.N)
 			case cs.Frag != "":
 				cx := pumpContexts[cs.Ctx]
 				s0, _ := measure(cx.pre + cx.post)
